@@ -104,7 +104,8 @@ def work_year(chunk):
         if d is None:
             continue
         tm = true_metres(code)
-        slack = 1 + (0.35 * float(code[:-1]) if code.upper().endswith('M') else 0)       # whole metres; a mile may be counted as 1609 m
+        # bare metres are exact; a K spelling is cut to whole metres; a mile may be counted as 1609 m
+        slack = 0 if code.isdigit() else 1 + (0.35 * float(code[:-1]) if code.upper().endswith('M') else 0)
         if abs(tm - d) > slack:
             acc.bad('distance-of-spelling-wrong', dict(code=code), 'get_distance(%r) = %r, the spelling denotes %s m' % (code, d, tm))
         d = int(tm) if tm == int(tm) else float(tm)
